@@ -162,6 +162,8 @@ func VerifC04CrashTxn(h *verifh.H) {
 	post := mClone(pre)
 	post.write("a", []*mVersion{va})
 	post.write("b", []*mVersion{vb})
+	withCore := h.Param("core", 0) == 1
+	rejectCore := withCore && h.Choice("rejectCore", 2) == 1
 	if h.BeforeCrash() {
 		hub := VerifOpenHub(env)
 		_, err := hub.Dsm.CreateDataset("a", nil)
@@ -169,6 +171,16 @@ func VerifC04CrashTxn(h *verifh.H) {
 		_, err = hub.Dsm.CreateDataset("b", nil)
 		h.Assert(err == nil, "create b")
 		txn := &Transaction{DatasetEntities: map[string][]*Entity{"a": {mkEntity(va)}, "b": {mkEntity(vb)}}}
+		if withCore {
+			// the transaction also names core.Dataset (an entity of its own there); that part may be
+			// one the hub rejects (a nil reference), in which case nothing of the transaction is stored
+			ce := NewEntity("ns0:extra", 0)
+			ce.Properties["ns0:v"] = "c"
+			if rejectCore {
+				ce.References["ns0:p1"] = nil
+			}
+			txn.DatasetEntities["core.Dataset"] = []*Entity{ce}
+		}
 		st := hub.Store
 		if h.Param("contextual", 0) == 1 {
 			// the store handle JS transforms write through
@@ -178,15 +190,29 @@ func VerifC04CrashTxn(h *verifh.H) {
 			h.CrashAtCommits()
 		}
 		h.CrashWindowStart()
-		h.Assert(st.ExecuteTransaction(txn) == nil, "transaction accepted")
+		err = st.ExecuteTransaction(txn)
+		if rejectCore {
+			h.Assert(err != nil, "a transaction with a rejected entity is refused")
+		} else {
+			h.Assert(err == nil, "transaction accepted")
+		}
 	}
 	h.CrashAndRecover()
 	hub := VerifOpenHub(env)
 	gotA, gotB := vObsCore(h, hub, "a"), vObsCore(h, hub, "b")
 	preOK := gotA == mObsCore(pre, "a") && gotB == mObsCore(pre, "b")
 	postOK := gotA == mObsCore(post, "a") && gotB == mObsCore(post, "b")
+	if withCore {
+		ce, err := hub.Store.GetEntity("ns0:extra", []string{"core.Dataset"}, true)
+		h.Assert(err == nil, "lookup in core.Dataset succeeds")
+		inCore := ce != nil && ce.Properties["ns0:v"] == "c"
+		preOK, postOK = preOK && !inCore, postOK && inCore
+		gotB += " core=" + vB(inCore)
+	}
 	h.Assert(preOK || postOK, "after a crash the transaction is present in every dataset it touches or in none :: a="+gotA+" b="+gotB)
-	if h.Acked() {
+	if rejectCore {
+		h.Assert(preOK, "nothing of a refused transaction is stored in any dataset it names :: a="+gotA+" b="+gotB)
+	} else if h.Acked() {
 		h.Assert(postOK, "an acknowledged transaction is present after the crash")
 	}
 	h.Observe("acked", h.Acked())
